@@ -228,6 +228,45 @@ theorem set_WF (t : Node) (k v : Bytes) (hwf : WF t) :
             · omega
           · simp only [height_inner]; omega
 
+/-- `set` (hence `balance`, `rotateLeft/Right`) never panics, on any tree whatsoever. -/
+theorem set_isSome (t : Node) (k v : Bytes) : ∃ r, t.set k v = some r := by
+  induction t with
+  | leaf nk nv m => simp only [Node.set]; split <;> exact ⟨_, rfl⟩
+  | inner nk h s l r m ihl ihr =>
+    simp only [Node.set]
+    split
+    · obtain ⟨⟨l', u⟩, e⟩ := ihl
+      rw [e]
+      cases u with
+      | true => exact ⟨_, rfl⟩
+      | false =>
+        obtain ⟨n', hb, _⟩ := balance_cases nk (max l'.height r.height + 1) (l'.size + r.size) l' r Meta.fresh
+        exact ⟨(n', false), by simp [mk, hb]⟩
+    · obtain ⟨⟨r', u⟩, e⟩ := ihr
+      rw [e]
+      cases u with
+      | true => exact ⟨_, rfl⟩
+      | false =>
+        obtain ⟨n', hb, _⟩ := balance_cases nk (max l.height r'.height + 1) (l.size + r'.size) l r' Meta.fresh
+        exact ⟨(n', false), by simp [mk, hb]⟩
+
+theorem Tree.set_isSome (t : Tree) (k v : Bytes) : ∃ r, Tree.set t k v = some r := by
+  cases t with
+  | none => exact ⟨_, rfl⟩
+  | some n =>
+    obtain ⟨r, e⟩ := C01.set_isSome n k v
+    exact ⟨(some r.1, r.2), by simp [Tree.set, e]⟩
+
+theorem Tree.setMany_isSome (kvs : List (Bytes × Bytes)) : ∀ t : Tree, ∃ t', Tree.setMany t kvs = some t' := by
+  induction kvs with
+  | nil => intro t; exact ⟨t, rfl⟩
+  | cons kv rest ih =>
+    obtain ⟨k, v⟩ := kv
+    intro t
+    obtain ⟨⟨t1, u⟩, e⟩ := Tree.set_isSome t k v
+    obtain ⟨t2, e2⟩ := ih t1
+    exact ⟨t2, by simp [Tree.setMany, e, e2]⟩
+
 /-! ### `get` -/
 
 theorem get_eq_lookup (t : Node) (k : Bytes) (hst : ST t) : (t.get k).2 = SMap.lookup k t.toList := by
